@@ -418,6 +418,13 @@ func exhaustiveC02(thorough bool, emit func(C02Case) bool) {
 		}
 	}
 	// multi-byte tokens at the start and inside of every field, first and later records
+	// twin records: fields of equal length that differ in one byte, in one stream
+	if !twinFields(func(a, b gen.B) bool {
+		r := func(n, q, u gen.B) FastqRec { return FastqRec{Name: n, Seq: gen.Lit(q), Quals: gen.Lit(u)} }
+		return emit(C02Case{Recs: []FastqRec{r(a, a, a), r(a, a, b), r(b, a, a), r(a, b, a), r(a, b, b), r(a, a, a)}})
+	}) {
+		return
+	}
 	for _, tok := range gen.HostileTokens {
 		for pos := 0; pos < 3; pos++ {
 			val := append(append(gen.B{}, tok...), 'x')
